@@ -136,4 +136,9 @@ def pretty(obj: Any) -> str:  # pragma: no cover
                     output.append(f'{m.group(1)} ')
                 break
 
+        if m is None:
+            # No token rule consumes this character (`-`, `|`, `.`, etc.): copy it and move on.
+            output.append(sel[index])
+            index += 1
+
     return ''.join(output)
